@@ -238,12 +238,20 @@ def sequence_stream(ctx, rng, n):
     def gen_body(k):
         out = []
         for _ in range(k):
+            if rng.random() < 0.15:
+                # the directive alone: one element of zeros; and statements that occupy nothing
+                out.append(rng.choice([(".byte0",), (".word0",), (".dword0",), (".blkb", 0), (".blkw0",), (".ascii", "")]))
+                continue
             out.append(rng.choice([(".even",), (".odd",), (".align", rng.choice([2, 3, 4, 5, 8, 16])), (".byte", rng.randrange(256)),
                                    (".byte", rng.randrange(256)), (".blkb", rng.randint(0, 5)), (".word", rng.randrange(65536)),
                                    (".ascii", "".join(rng.choice("abcXYZ09") for _ in range(rng.randint(1, 4))))]))
         return out
 
     def text_of(st):
+        if st[0] in (".byte0", ".word0", ".dword0"):
+            return st[0][:-1]
+        if st[0] == ".blkw0":
+            return ".blkw 0"
         if st[0] == ".ascii":
             return '.ascii "%s"' % st[1]
         if st[0] in (".even", ".odd"):
@@ -253,6 +261,14 @@ def sequence_stream(ctx, rng, n):
     def emit(st, addr):
         """bytes of one statement at an address, or None for the odd-address error"""
         k = st[0]
+        if k == ".byte0":
+            return b"\x00"
+        if k == ".word0":
+            return None if addr % 2 else b"\x00\x00"
+        if k == ".dword0":
+            return None if addr % 2 else b"\x00" * 4
+        if k == ".blkw0":
+            return b""
         if k == ".even":
             return b"\x00" * (addr % 2)
         if k == ".odd":
@@ -268,7 +284,8 @@ def sequence_stream(ctx, rng, n):
         return st[1].encode("ascii")
 
     for it in range(n):
-        base = rng.choice([0o1000, 0o1001, 0o2003, 0o40000])
+        base = rng.choice([0o1000, 0o1001, 0o2003, 0o40000, 0o1000, 0o1000])
+        nolink = base == 0o1000 and rng.random() < 0.6        # the default base: nothing says where the program goes
         prog = []      # ("st", st) | ("rep", n, body) | ("inc", body)
         for _ in range(rng.randint(1, 5)):
             c = rng.random()
@@ -279,7 +296,7 @@ def sequence_stream(ctx, rng, n):
             else:
                 prog.append(("st", gen_body(1)[0]))
         addr, img, fails = base, b"", False
-        lines, incs = [".link %d." % base], []
+        lines, incs = ([] if nolink else [".link %d." % base]), []
         for item in prog:
             if item[0] == "st":
                 seqs, lines2 = [item[1]], [text_of(item[1])]
